@@ -41,13 +41,23 @@ def storeCall : List String → Option Call
   | ["mxor", is] => do pure (.opn (libOpN 2) (← parseIdxList is))
   | _ => none
 
-/-- `store <call…>`; returns the new state and the answer. -/
+def showLock : LockEv → String
+  | .rAcq => "R+" | .rRel => "R-" | .wAcq => "W+" | .wRel => "W-"
+
+/-- `store <call…>`; returns the new state and the answer.
+    `storelk <call…>`: same, followed by the lock sections of the call (`R+R-W+W-`). -/
 def stepStore (st : St) (toks : List String) : Option (St × String) :=
   match toks with
   | ["store", "reset"] => some (St.init, "ok")
   | "store" :: rest =>
     match storeCall rest with
     | some c => let r := step st c; some (r.1, showOut r.2)
+    | none => none
+  | "storelk" :: rest =>
+    match storeCall rest with
+    | some c =>
+      let r := step st c
+      some (r.1, showOut r.2 ++ " " ++ String.join ((lockTrace st c).map showLock))
     | none => none
   | _ => none
 
